@@ -2,25 +2,32 @@
 //!
 //! Every history runs against a fresh server started with `appendonly yes` in its own
 //! scratch directory.  Besides the ops of the TCP runner (srv.rs) a history may contain
-//!   AOFREAD                                   the bytes of <dir>/appendonly.aof and the frames this
-//!                                             harness's own RESP reader decodes from them
+//!   AOFREAD t                                 the bytes of <dir>/appendonly.aof and the frames this
+//!                                             harness's own RESP reader decodes from them, in the canonical
+//!                                             form of Model/Aof.v canon_record (a PEXPIREAT deadline is a
+//!                                             wall-clock time: "1" if still ahead when the file is read,
+//!                                             "0" if past; the members of an SREM record sorted)
 //!   AOFREPLAY c t mode k <k dump requests>    the decoded commands are re-sent, in file order, to a
 //!                                             SECOND fresh server (no AOF); the dump requests are then
 //!                                             run on the live server (connection c) and on the replayed
 //!                                             one and compared.  The op is augmented with the replies of
 //!                                             the second server (oracles for the model's SPOP / XADD *)
 //!   AOFRESTART c t k <k dump requests>        the server process is killed and started again on the same
-//!                                             directory (what recovery from the file amounts to)
+//!                                             directory: start-up replays the file (831b342)
 //!   CMDQ c t <request>                        a command whose reply is not compared (table tie)
 //! (output formats: coq/Model/RunAof.v).
 //!
 //! Generator: (1) the table tie - every command name of server.rs's dispatch table, read from
-//! /repo at run time, is sent once and the file inspected; (2) fixed witnesses of the open
-//! classes (those of the classes repaired by 8d99f01 / 7ef6fad / 39510e9 are regression cases
-//! in corpus/C11); (3) "clean" histories (id cl-*): the deterministic catalogue in any database
-//! (SELECT included) with long TTLs - the domain of theorem c11_replay, where the property
-//! oracle accepts no disagreement at all; (4) "dirty" histories (id dx-*): additionally SPOP,
-//! XADD *, zero TTLs, SCRIPT LOAD / EVALSHA.  Commands come from the string/key family (c01),
+//! /repo at run time, is sent once and the file inspected; (2) fixed witnesses: the one open
+//! class (a key that expires between the live run and the redo), transactions, scripts, TTL
+//! commands followed by a redo / restart after the deadline (the witnesses of the eleven classes
+//! repaired in /repo are regression cases in corpus/C11); (3) histories cl-*: the deterministic
+//! catalogue in any database (SELECT included) with long TTLs; (4) histories dx-*: additionally
+//! SPOP, XADD *, SCRIPT LOAD / EVALSHA (logged by outcome since f085462 / a8393c5), client
+//! PEXPIREAT, and short TTLs on keys of their own with a SLEEP past the deadline before the file
+//! is read; (5) histories bk-*: blocking pops served at once and by a wake-up (C13's runner ops
+//! BCONN / BSEND / BRECV).  The property oracle accepts no disagreement in any of them; one
+//! history in three ends with a restart.  Commands come from the string/key family (c01),
 //! lists/sets/hashes (c03), a stream/group generator, a sorted-set generator and EVAL of small
 //! scripts in the DSL of C12, directly and through MULTI/EXEC (also aborted by WATCH,
 //! DISCARDed), on one or two connections.
@@ -45,7 +52,8 @@ pub fn all_keys() -> Vec<Vec<u8>> {
     for k in c01::OTHER_KEYS { add(k); }
     for k in c03::all_keys() { add(k); }
     for k in STREAM_KEYS { add(k); }
-    add(b"x3"); add(b"nokey"); add(b"z2");
+    add(b"x3"); add(b"nokey"); add(b"z2"); add(b"kt1"); add(b"kt2");
+    for k in [&b"e1"[..], b"e2", b"el", b"eh", b"es"] { add(k); }
     ks
 }
 
@@ -72,7 +80,7 @@ pub fn dump_reqs() -> Vec<V> {
     d
 }
 
-pub fn aofread_op() -> Vec<Tok> { vec![b("AOFREAD")] }
+pub fn aofread_op() -> Vec<Tok> { vec![b("AOFREAD"), i(0)] }
 pub fn aofreplay_op(mode: i64, dump: &[V]) -> Vec<Tok> {
     let mut o = vec![b("AOFREPLAY"), i(DUMP_CONN), i(0), i(mode), i(dump.len() as i64)];
     for d in dump { d.enc(&mut o); }
@@ -177,24 +185,28 @@ pub fn script_of(calls: &[Vec<Vec<u8>>], pcall: bool) -> Vec<u8> {
     o += "return r";
     o.into_bytes()
 }
-fn eval_cmd(r: &mut Rng) -> Vec<Vec<u8>> {
+/// (the calls cannot fail - integer strings e1, strings e2, list el, hash eh are keys no other command
+/// touches: how a failing redis.call / redis.pcall ends a script is C12's subject, repaired in /repo by
+/// 38e52a4 / 2ecc978 after the script model on main was written)
+fn gen_script(r: &mut Rng) -> Vec<u8> {
     let n = 1 + r.below(3);
     let mut calls = vec![];
     for _ in 0..n {
-        let k = v(*r.pick(&[&b"k1"[..], b"k2", b"ka", b"l1", b"h1"]));
-        calls.push(match r.below(8) {
-            0 | 1 => vec![v(b"SET"), k, v(*r.pick(&[&b"1"[..], b"x", b"10"]))],
-            2 | 3 => vec![v(b"INCR"), k],
-            4 => vec![v(b"RPUSH"), k, v(b"e")],
-            5 => vec![v(b"HSET"), k, v(b"f"), v(b"1")],
-            6 => vec![v(b"DEL"), k],
-            _ => vec![v(b"APPEND"), k, v(b"+")],
+        calls.push(match r.below(9) {
+            0 | 1 => vec![v(b"SET"), v(b"e1"), v(*r.pick(&[&b"1"[..], b"7", b"10"]))],
+            2 | 3 => vec![v(b"INCR"), v(b"e1")],
+            4 => vec![v(b"RPUSH"), v(b"el"), v(b"e")],
+            5 => vec![v(b"HSET"), v(b"eh"), v(*r.pick(&[&b"f"[..], b"g"])), v(b"1")],
+            6 => vec![v(b"DEL"), v(*r.pick(&[&b"e1"[..], b"e2", b"el", b"eh"]))],
+            7 => vec![v(b"SADD"), v(b"es"), v(*r.pick(&[&b"a"[..], b"b"]))],
+            _ => vec![v(b"APPEND"), v(b"e2"), v(b"+")],
         });
     }
-    vec![v(b"EVAL"), script_of(&calls, r.chance(1, 4)), v(b"0")]
+    script_of(&calls, r.chance(1, 4))
 }
+fn eval_cmd(r: &mut Rng) -> Vec<Vec<u8>> { vec![v(b"EVAL"), gen_script(r), v(b"0")] }
 
-fn gen_cmd(r: &mut Rng, g3: &mut c03::Gen, st: &mut StreamSt, dirty: bool, intx: bool, db0: bool) -> Option<Vec<Vec<u8>>> {
+fn gen_cmd(r: &mut Rng, g3: &mut c03::Gen, st: &mut StreamSt, dirty: bool, intx: bool, db0: bool, shas: &[Vec<u8>], restarts: bool) -> Option<Vec<Vec<u8>>> {
     let cmd = match r.below(100) {
         0..=29 => c01::gen_cmd(r),
         30..=57 => g3.cmd(),
@@ -202,10 +214,21 @@ fn gen_cmd(r: &mut Rng, g3: &mut c03::Gen, st: &mut StreamSt, dirty: bool, intx:
         // sorted sets: the model needs the f64 oracle of the arguments, which a queued command loses
         78..=89 => if !intx { zset_cmd(r) } else { vec![v(b"PING")] },
         // scripts run in database 0 only (the executor's database handling is C12's subject) and not under MULTI
-        90..=94 => if db0 && !intx { eval_cmd(r) } else { vec![v(b"PING")] },
+        90..=94 => if db0 && !intx {
+            // EVALSHA of a script loaded at the start of the history (logged as the EVAL of its source: a8393c5),
+            // now and then of a hash that names no script (nothing runs, nothing is logged)
+            if !shas.is_empty() && r.chance(1, 2) {
+                let sha = if r.chance(1, 6) { v(b"00000000000000000000000000000000000000ff") } else { r.pick(shas).clone() };
+                vec![v(b"EVALSHA"), sha, v(b"0")]
+            } else { eval_cmd(r) }
+        } else { vec![v(b"PING")] },
         95 => vec![v(b"FLUSHDB")],
         96 => if r.chance(1, 3) { vec![v(b"FLUSHALL")] } else { vec![v(b"DBSIZE")] },
         97 => vec![v(b"NOSUCHCMD"), v(b"k1")],
+        // the command the file uses for deadlines (98d0d1a), sent by a client: a time long past, a time far ahead
+        // (year 3000), not a number.  (The keys are none of the WATCHed ones: Server.v has no mark for it.)
+        98 => if dirty { vec![v(b"PEXPIREAT"), v(*r.pick(&[&b"k1"[..], b"k2", b"ka", b"l1", b"nokey"])), v(*r.pick(&[&b"0"[..], b"-5", b"32503680000000", b"32503680000000", b"abc"]))] }
+              else { vec![v(b"PING")] },
         _ => vec![v(b"PING")],
     };
     let name = upper(&cmd[0]);
@@ -215,6 +238,14 @@ fn gen_cmd(r: &mut Rng, g3: &mut c03::Gen, st: &mut StreamSt, dirty: bool, intx:
     let has = |w: &[u8]| cmd.iter().skip(3).any(|a| a.eq_ignore_ascii_case(w));
     if name == b"SET" && ((has(b"NX") && has(b"XX")) || cmd.windows(2).any(|w| (w[0].eq_ignore_ascii_case(b"EX") || w[0].eq_ignore_ascii_case(b"PX")) && w[1] == b"0")) { return None; }
     if name == b"SETRANGE" && cmd.get(3).map_or(false, |x| x.is_empty()) { return None; }
+    // class startup-executor-differs: the direct SET / INCR / INCRBY refuse the empty key, the record is in the
+    // file all the same, and start-up replays it through the command executor, which accepts it (witness:
+    // binary_witnesses)
+    if restarts && matches!(&name[..], b"SET" | b"INCR" | b"INCRBY") && cmd.get(1).map_or(false, |x| x.is_empty()) { return None; }
+    // times to live so long that the deadline, as a Unix time in milliseconds, no longer fits an i64: the
+    // PEXPIREAT record then holds a number the replay refuses (harmless: the key keeps the relative time
+    // the record before it gave it) - the model's clock starts at 0 and cannot mirror where that happens
+    if matches!(&name[..], b"SET" | b"SETEX" | b"PSETEX" | b"EXPIRE" | b"PEXPIRE") && cmd.iter().skip(2).any(|a| a.len() >= 16 && a.iter().all(|c| c.is_ascii_digit())) { return None; }
     if (name == b"ZPOPMIN" || name == b"ZPOPMAX") && cmd.get(2).map_or(false, |x| x == b"0") { return None; }
     if intx && (RANDOM_NAMES.contains(&&name[..]) || (name == b"XADD" && cmd.get(2).map_or(false, |x| x == b"*"))) { return None; }
     if !dirty {
@@ -244,6 +275,30 @@ fn random_case(r: &mut Rng, id: String, dirty: bool) -> Case {
         push(&mut ops, 1, &[v(b"SET"), v(b"str1"), v(b"v")]);
         st.added.push((v(b"x1"), v(b"1-1")));
     }
+    // dx: two scripts in the cache for EVALSHA
+    let mut shas: Vec<Vec<u8>> = vec![];
+    if dirty {
+        for _ in 0..2 { let src = gen_script(r); ops.push(cmd_op(1, &[b"SCRIPT", b"LOAD", &src])); shas.push(crate::c12::sha1_hex(&src)); }
+    }
+    // dx, one in three: short times to live on keys no other command touches, and a SLEEP past every such
+    // deadline before the file is read - the redo and the restart then run after the deadlines (98d0d1a).
+    // (Commands that build on a key which was alive when they ran and is past its deadline at the redo are
+    // the one open class: witness w-expiry-unlogged.)
+    let short_ttl = dirty && r.chance(1, 3);
+    if short_ttl {
+        for _ in 0..(1 + r.below(4)) {
+            let k: &[u8] = if r.chance(1, 2) { b"kt1" } else { b"kt2" };
+            match r.below(6) {
+                0 => ops.push(cmd_op(1, &[b"SET", k, b"v", b"PX", b"1200"])),
+                1 => ops.push(cmd_op(1, &[b"PSETEX", k, b"1300", b"v"])),
+                2 => ops.push(cmd_op(1, &[b"SETEX", k, b"1", b"v"])),
+                3 => { ops.push(cmd_op(1, &[b"SET", k, b"v"])); ops.push(cmd_op(1, &[b"PEXPIRE", k, b"1250"])); }
+                4 => ops.push(cmd_op(1, &[b"EXPIRE", k, b"1"])),
+                _ => ops.push(cmd_op(1, &[b"SET", k, b"w", b"EX", b"1", b"NX"])),
+            }
+        }
+    }
+    let restarts = r.chance(1, 3);
     let mut intx = vec![false; 4];
     let mut dbs = vec![0i64; 4];            // the database each connection has selected
     let big = r.chance(1, 4); let len = 4 + r.below(if big { 70 } else { 30 });
@@ -253,9 +308,9 @@ fn random_case(r: &mut Rng, id: String, dirty: bool) -> Case {
         match r.below(24) {
             0 | 1 => if !intx[cu] { ops.push(cmd_op(c, &[b"MULTI"])); intx[cu] = true; },
             2 | 3 | 4 => if intx[cu] { ops.push(cmd_op(c, &[if r.chance(1, 8) { b"DISCARD" } else { b"EXEC" }])); intx[cu] = false; },
-            // watched keys: written by the string, list/set/hash and stream families only (Server.v has no
-            // marks for sorted sets and scripts yet: C08's catalogue)
-            5 => if !intx[cu] && r.chance(1, 2) { ops.push(cmd_op(c, &[b"WATCH", *r.pick(&[&b"kb"[..], b"k3", b"s2", b"x2"])])); },
+            // watched keys: written by the string and list/set/hash families only (Server.v has no marks for
+            // sorted sets, scripts and PEXPIREAT; the group-command marks follow cc8be72 on main later)
+            5 => if !intx[cu] && r.chance(1, 2) { ops.push(cmd_op(c, &[b"WATCH", *r.pick(&[&b"kb"[..], b"k3", b"s2"])])); },
             6 => if r.chance(1, 2) {
                 let n = *r.pick(&[&b"0"[..], b"0", b"1", b"1", b"2", b"15", b"16"]);
                 ops.push(cmd_op(c, &[b"SELECT", n]));
@@ -264,13 +319,26 @@ fn random_case(r: &mut Rng, id: String, dirty: bool) -> Case {
                 if n != b"16" { dbs[cu] = if intx[cu] { -1 } else { String::from_utf8_lossy(n).parse().unwrap() }; }
             },
             _ => {
-                if let Some(cmd) = gen_cmd(r, &mut g3, &mut st, dirty, intx[cu], dbs[cu] == 0) {
-                    if r.chance(1, 50) && cmd.len() >= 2 && upper(&cmd[0]) != b"EVAL" && upper(&cmd[0]) != b"MSET" {
+                if let Some(cmd) = gen_cmd(r, &mut g3, &mut st, dirty, intx[cu], dbs[cu] == 0, &shas, restarts) {
+                    // (a non-bulk argument: not in histories that restart - the direct DEL skips it, the executor
+                    // that replays the record at start-up refuses the command: class startup-executor-differs)
+                    if !restarts && r.chance(1, 50) && cmd.len() >= 2 && upper(&cmd[0]) != b"EVAL" && upper(&cmd[0]) != b"MSET" {
                         let pos = 1 + r.below(cmd.len() as u64 - 1) as usize;
                         let mut fr: Vec<V> = cmd.iter().map(|a| V::Bulk(a.clone())).collect();
                         fr[pos] = if r.chance(1, 2) { V::Int(5) } else { V::NullBulk };
                         ops.push(cmd_frame_op(c, &V::Array(fr)));
-                    } else { push(&mut ops, c, &cmd); }
+                    } else {
+                        // d9160ac (XREADGROUP on a key that does not exist answers NOGROUP) is not yet in the
+                        // stream model on main: the key is made to exist first (as a stream, unless it holds
+                        // another type), with or without the group
+                        if upper(&cmd[0]) == b"XREADGROUP" && cmd.len() >= 4 {
+                            let key = cmd[cmd.len() - 2].clone();
+                            if r.chance(1, 2) { push(&mut ops, c, &[v(b"XGROUP"), v(b"CREATE"), key, cmd[2].clone(), v(b"$"), v(b"MKSTREAM")]); }
+                            else { st.next_ms += 1; let id = format!("{}-0", st.next_ms).into_bytes(); st.added.push((key.clone(), id.clone()));
+                                   push(&mut ops, c, &[v(b"XADD"), key, id, v(b"f"), v(b"v")]); }
+                        }
+                        push(&mut ops, c, &cmd);
+                    }
                 }
             }
         }
@@ -286,11 +354,68 @@ fn random_case(r: &mut Rng, id: String, dirty: bool) -> Case {
         ops.push(cmd_op(1, &[b"RPUSH", b"l2", b"lost"]));
         ops.push(cmd_op(1, &[b"EXEC"]));
     }
+    if short_ttl { ops.push(sleep_op(1800)); }
     let dump = dump_reqs();
     ops.push(aofread_op());
     ops.push(aofreplay_op(1, &dump));
-    if r.chance(1, 5) { ops.push(aofrestart_op(8, &dump)); }
+    if restarts { ops.push(aofrestart_op(8, &dump)); }
     Case { id, ops, outs: vec![] }
+}
+
+/// blocking pops (293eff6: a served pop is logged as the LPOP / RPOP of the key, when it is served):
+/// served at once, served by the push of another client, in databases 0 and 1, several clients
+/// waiting on one key; then the file, the redo and (one in two) a restart
+fn bdump() -> Vec<V> {
+    let mut d = vec![];
+    for db in [&b"0"[..], b"1"] {
+        d.push(V::cmd(&[b"SELECT", db]));
+        for k in [&b"l1"[..], b"l2", b"l3"] { d.push(V::cmd(&[b"TYPE", k])); d.push(V::cmd(&[b"LRANGE", k, b"0", b"-1"])); }
+        d.push(V::cmd(&[b"KEYS", b"*"])); d.push(V::cmd(&[b"DBSIZE"]));
+    }
+    d.push(V::cmd(&[b"SELECT", b"0"]));
+    d
+}
+fn blocking_case(r: &mut Rng, id: String) -> Case {
+    const OBS: i64 = DUMP_CONN;
+    let keys: &[&[u8]] = &[b"l1", b"l2", b"l3"];
+    let nc = 2 + r.below(2) as i64;
+    let mut ops = vec![conn_op(OBS)];
+    for c in 1..=nc { ops.push(bconn_op(c)); }
+    ops.push(cmd_op(OBS, &[b"VERIF", b"SWEEP", b"PAUSE"]));
+    let mut obs_db = 0i64;
+    let mut waiting = vec![false; 8];
+    let els: &[&[u8]] = &[b"a", b"b", b"c", b"\xff", b""];
+    if r.chance(1, 3) { let c = 1 + r.below(nc as u64) as i64; ops.push(bsend_op(c, &[V::cmd(&[b"SELECT", b"1"])])); ops.push(brecv_op(c)); }
+    for _ in 0..(4 + r.below(14)) {
+        let c = 1 + r.below(nc as u64) as i64;
+        let k = *r.pick(keys);
+        match r.below(12) {
+            // a blocking pop without a timeout: served at once if the list has an element, else it waits
+            0..=4 => if !waiting[c as usize] {
+                let name: &[u8] = if r.chance(1, 2) { b"BLPOP" } else { b"BRPOP" };
+                let q = if r.chance(1, 4) { V::cmd(&[name, k, *r.pick(keys), b"0"]) } else { V::cmd(&[name, k, b"0"]) };
+                ops.push(bsend_op(c, &[q])); ops.push(brecv_op(c));
+                waiting[c as usize] = true;       // (possibly: a BRECV that brings the answer is harmless either way)
+            },
+            // a push by the observer: wakes a waiting client, or stays in the list
+            5..=8 => {
+                let name: &[u8] = if r.chance(1, 2) { b"RPUSH" } else { b"LPUSH" };
+                let mut q: Vec<&[u8]> = vec![name, k]; for _ in 0..(1 + r.below(3)) { q.push(*r.pick(els)); }
+                ops.push(cmd_op(OBS, &q));
+                for c2 in 1..=nc { ops.push(brecv_op(c2)); waiting[c2 as usize] = false; }
+            }
+            9 => { obs_db = 1 - obs_db; ops.push(cmd_op(OBS, &[b"SELECT", if obs_db == 0 { b"0" } else { b"1" }])); }
+            10 => ops.push(cmd_op(OBS, &[if r.chance(1, 2) { b"LPOP" } else { b"RPOP" }, k])),
+            _ => ops.push(cmd_op(OBS, &[b"LRANGE", k, b"0", b"-1"])),
+        }
+    }
+    for c in 1..=nc { ops.push(brecv_op(c)); }
+    if obs_db != 0 { ops.push(cmd_op(OBS, &[b"SELECT", b"0"])); }
+    let dump = bdump();
+    ops.push(aofread_op());
+    ops.push(aofreplay_op(1, &dump));
+    if r.chance(1, 2) { ops.push(aofrestart_op(8, &dump)); }
+    Case { id: format!("bk-{}", id), ops, outs: vec![] }
 }
 
 /// every command name of the dispatch table, once, each on its own connection; then the file.
@@ -304,7 +429,8 @@ fn table_case() -> Case {
     for n in dispatch_names() {
         if SKIP.contains(&&n[..]) { continue; }
         ops.push(conn_op(c));
-        ops.push(cmdq_op(c, &[n.as_bytes(), b"tk", b"1"]));
+        // (PEXPIREAT: a deadline that is past on the wall clock and on the model's clock alike)
+        ops.push(cmdq_op(c, &[n.as_bytes(), b"tk", if n == "PEXPIREAT" { b"0" } else { b"1" }]));
         ops.push(close_op(c));
         c += 1;
     }
@@ -327,8 +453,9 @@ fn kd(keys: &[&[u8]]) -> Vec<V> {
                     d.push(V::cmd(&[b"LRANGE", k, b"0", b"-1"])); d.push(V::cmd(&[b"XPENDING", k, b"g1"])); }
     d.push(V::cmd(&[b"DBSIZE"])); d
 }
-/// the witnesses of the classes repaired in /repo (8d99f01, 7ef6fad, 39510e9): stored as regression
-/// cases in corpus/C11/fixed-classes.case (written from here: `gen C11 --tier corpus-witnesses`)
+/// the witnesses of the classes repaired in /repo (8d99f01, 7ef6fad, 39510e9; 293eff6, a8393c5, f085462,
+/// 98d0d1a, 831b342): stored as regression cases in corpus/C11/fixed-classes.case (written from here:
+/// `gen C11 --tier corpus-witnesses`)
 pub fn fixed_class_witnesses() -> Vec<Case> {
     let mut w = vec![
         witness("r-unlogged-getset", &[&[b"SET", b"k", b"a"], &[b"GETSET", b"k", b"b"]], 1, &kd(&[b"k"])),
@@ -343,57 +470,71 @@ pub fn fixed_class_witnesses() -> Vec<Case> {
     c.ops.push(aofread_op()); c.ops.push(aofrestart_op(2, &kd(&[b"k"])));
     // after the restart the engine has forgotten its database: the next write is preceded by SELECT again
     c.ops.push(cmd_op(2, &[b"SET", b"j", b"b"])); c.ops.push(aofread_op()); w.push(c);
+    // 98d0d1a: the deadline is in the file as an absolute time - gone live after 1.5 s, gone after the redo too
+    { let mut c = witness("r-expired-unlogged", &[&[b"SET", b"k", b"v", b"PX", b"1500"]], 1, &kd(&[b"k"]));
+      let n = c.ops.len(); c.ops.insert(n - 2, sleep_op(1800)); w.push(c); }
+    // f085462: random outcomes are logged as what they amounted to (SREM of the popped members, XADD with the ID)
+    let members: Vec<Vec<u8>> = (0..40).map(|j| format!("m{}", j).into_bytes()).collect();
+    let mut sadd: Vec<&[u8]> = vec![b"SADD", b"s"]; for m in &members { sadd.push(m); }
+    w.push(witness("r-random-spop", &[&sadd, &[b"SPOP", b"s", b"20"], &[b"SPOP", b"s"]], 1, &[V::cmd(&[b"SMEMBERS", b"s"]), V::cmd(&[b"SCARD", b"s"])]));
+    w.push(witness("r-random-xadd", &[&[b"XADD", b"x", b"*", b"f", b"v"], &[b"XADD", b"x", b"*", b"g", b"w"]], 1, &[V::cmd(&[b"XRANGE", b"x", b"-", b"+"]), V::cmd(&[b"XLEN", b"x"])]));
+    // a8393c5: EVALSHA is logged as the EVAL of the script
+    { let src = script_of(&[vec![v(b"SET"), v(b"k"), v(b"v")]], false); let sha = crate::c12::sha1_hex(&src);
+      w.push(witness("r-evalsha", &[&[b"SCRIPT", b"LOAD", &src], &[b"EVALSHA", &sha, b"0"]], 1, &kd(&[b"k"]))); }
+    // 831b342: the file is replayed at start-up
+    let mut c = Case { id: "r-restart-recovers".to_string(), ops: vec![conn_op(1), cmd_op(1, &[b"SET", b"k", b"a"]), cmd_op(1, &[b"RPUSH", b"l", b"x"])], outs: vec![] };
+    c.ops.push(aofread_op()); c.ops.push(aofrestart_op(2, &kd(&[b"k", b"l"]))); w.push(c);
+    // 293eff6: a blocking pop that is served is in the file as the LPOP / RPOP of the key
+    let ld = vec![V::cmd(&[b"LRANGE", b"l", b"0", b"-1"]), V::cmd(&[b"GET", b"k"]), V::cmd(&[b"DBSIZE"])];
+    let pre = || vec![conn_op(DUMP_CONN), bconn_op(1), bconn_op(2), cmd_op(DUMP_CONN, &[b"VERIF", b"SWEEP", b"PAUSE"])];
+    let fin = |mut ops: Vec<Vec<Tok>>, id: &str| { ops.push(aofread_op()); ops.push(aofreplay_op(1, &ld)); Case { id: id.to_string(), ops, outs: vec![] } };
+    let mut a = pre(); a.push(cmd_op(DUMP_CONN, &[b"RPUSH", b"l", b"a", b"b"])); a.push(bsend_op(1, &[V::cmd(&[b"BLPOP", b"l", b"0"])])); a.push(brecv_op(1));
+    let mut b2 = pre(); b2.push(bsend_op(1, &[V::cmd(&[b"BRPOP", b"l", b"0"])])); b2.push(brecv_op(1));
+    b2.push(cmd_op(DUMP_CONN, &[b"RPUSH", b"l", b"a", b"b"])); b2.push(brecv_op(1));
+    w.push(fin(a, "bk-r-blpop-immediate")); w.push(fin(b2, "bk-r-blpop-served"));
     w
 }
 
 pub fn witnesses() -> Vec<Case> {
+    let two_dbs = { let mut d = kd(&[b"a", b"b"]); d.push(V::cmd(&[b"SELECT", b"1"])); d.extend(kd(&[b"a", b"b"])); d.push(V::cmd(&[b"SELECT", b"0"])); d };
     let mut w = vec![
-        // expiry is not logged and TTLs are relative: gone live after 600 ms, set again by the redo
-        { let mut c = witness("w-expired-unlogged", &[&[b"SET", b"k", b"v", b"PX", b"1500"]], 1, &kd(&[b"k"]));
-          let n = c.ops.len(); c.ops.insert(n - 2, sleep_op(1800)); c },   // (1.5 s: the redo side must still see the key under machine load)
+        // the one open class: no record is written when a key expires, so commands that ran while the key
+        // was alive and are redone after its deadline act on a different dataset.  Live: j = v for good.
+        // Redo 1.8 s later: k is past its deadline (PEXPIREAT deletes it), RENAME fails, there is no j
+        { let mut c = witness("w-expiry-unlogged", &[&[b"SET", b"k", b"v", b"PX", b"1500"], &[b"RENAME", b"k", b"j"], &[b"PERSIST", b"j"]], 1, &kd(&[b"k", b"j"]));
+          let n = c.ops.len(); c.ops.insert(n - 2, sleep_op(1800)); c },
+        // the same class without RENAME: a deadline that was extended (or lifted by PERSIST) while the key was
+        // alive - the redo, run after the first deadline, deletes the key at its first PEXPIREAT record
+        { let mut c = witness("w-expiry-extended", &[&[b"SET", b"q", b"z", b"EX", b"1"], &[b"PEXPIRE", b"q", b"500000"], &[b"SET", b"p", b"1", b"PX", b"1200"], &[b"INCR", b"p"], &[b"PERSIST", b"p"]], 1, &kd(&[b"q", b"p"]));
+          let n = c.ops.len(); c.ops.insert(n - 2, sleep_op(1800)); c },
         witness("w-tx-select", &[&[b"MULTI"], &[b"SET", b"a", b"1"], &[b"SELECT", b"1"], &[b"SET", b"b", b"2"], &[b"GET", b"b"], &[b"EXEC"],
-                                  &[b"APPEND", b"b", b"3"]], 1, &{ let mut d = kd(&[b"a", b"b"]); d.push(V::cmd(&[b"SELECT", b"1"])); d.extend(kd(&[b"a", b"b"])); d.push(V::cmd(&[b"SELECT", b"0"])); d }),
+                                  &[b"APPEND", b"b", b"3"]], 1, &two_dbs),
         witness("w-tx-logged", &[&[b"MULTI"], &[b"SET", b"k", b"a"], &[b"RPUSH", b"l", b"x", b"y"], &[b"GET", b"k"], &[b"EXEC"],
                                   &[b"MULTI"], &[b"SET", b"k", b"b"], &[b"DISCARD"]], 1, &kd(&[b"k", b"l"])),
-        { let src = script_of(&[vec![v(b"SET"), v(b"k"), v(b"v")]], false); let sha = crate::c12::sha1_hex(&src);
-          witness("w-evalsha", &[&[b"SCRIPT", b"LOAD", &src], &[b"EVALSHA", &sha, b"0"]], 1, &kd(&[b"k"])) },
-        witness("w-eval-partial", &[&[b"RPUSH", b"l", b"x"],
-                                    &[b"EVAL", &script_of(&[vec![v(b"SET"), v(b"k"), v(b"1")], vec![v(b"INCR"), v(b"l")], vec![v(b"SET"), v(b"j"), v(b"2")]], false), b"0"]],
-                1, &kd(&[b"k", b"j", b"l"])),
+        witness("w-tx-ttl", &[&[b"MULTI"], &[b"SET", b"k", b"a", b"EX", b"100"], &[b"SELECT", b"1"], &[b"SETEX", b"k", b"100", b"b"], &[b"EXEC"]], 1,
+                &{ let mut d = kd(&[b"k"]); d.push(V::cmd(&[b"SELECT", b"1"])); d.extend(kd(&[b"k"])); d.push(V::cmd(&[b"SELECT", b"0"])); d }),
     ];
-    // random outcomes logged verbatim: 40 members, 20 popped - the replay pops the same 20 with probability 1/C(40,20)
-    let members: Vec<Vec<u8>> = (0..40).map(|j| format!("m{}", j).into_bytes()).collect();
-    let mut sadd: Vec<&[u8]> = vec![b"SADD", b"s"]; for m in &members { sadd.push(m); }
-    w.push(witness("w-random-spop", &[&sadd, &[b"SPOP", b"s", b"20"]], 0, &[V::cmd(&[b"SMEMBERS", b"s"]), V::cmd(&[b"SCARD", b"s"])]));
-    w.push(witness("w-random-xadd", &[&[b"XADD", b"x", b"*", b"f", b"v"]], 0, &[V::cmd(&[b"XRANGE", b"x", b"-", b"+"]), V::cmd(&[b"XLEN", b"x"])]));
-    // recovery: restart on the same directory
-    let mut c = Case { id: "w-restart-empty".to_string(), ops: vec![conn_op(1), cmd_op(1, &[b"SET", b"k", b"a"]), cmd_op(1, &[b"RPUSH", b"l", b"x"])], outs: vec![] };
-    c.ops.push(aofread_op()); c.ops.push(aofrestart_op(2, &kd(&[b"k", b"l"]))); w.push(c);
+    // TTL commands, then the redo and a restart after some of the deadlines
+    let tk: &[&[u8]] = &[b"k", b"j", b"m", b"n", b"p", b"q"];
+    let mut c = witness("w-ttl-after-deadline", &[&[b"SET", b"k", b"v", b"PX", b"1500"], &[b"SETEX", b"j", b"100", b"w"], &[b"PSETEX", b"m", b"1400", b"x"],
+        &[b"SET", b"n", b"y"], &[b"EXPIRE", b"n", b"1"], &[b"SET", b"p", b"z", b"EX", b"100"], &[b"PEXPIRE", b"p", b"1300"],
+        &[b"SET", b"q", b"z", b"EX", b"100"], &[b"PEXPIRE", b"q", b"500000"], &[b"EXPIRE", b"nokey", b"100"], &[b"SET", b"k", b"v2", b"NX", b"EX", b"100"]], 1, &kd(tk));
+    let n = c.ops.len(); c.ops.insert(n - 2, sleep_op(1800)); c.ops.push(aofrestart_op(2, &kd(tk))); w.push(c);
+    let mut c = witness("w-ttl-before-deadline", &[&[b"SET", b"k", b"v", b"EX", b"100"], &[b"SET", b"j", b"w"], &[b"PEXPIREAT", b"j", b"32503680000000"], &[b"SET", b"m", b"x"], &[b"PEXPIREAT", b"m", b"0"]], 1, &kd(tk));
+    c.ops.push(aofrestart_op(2, &kd(tk))); w.push(c);
     w
 }
 
-/// witnesses of classes that live outside this branch's model (blocking pops, scripts): they are
-/// replayed on the implementation only (known_findings.json), never generated for the differential run
+/// witnesses of classes the model of this branch does not reproduce: replayed on the implementation
+/// only (known_findings.json), never generated for the differential run.
+/// startup-executor-differs: start-up replays the file through the command executor (the one redis.call
+/// uses), not through the handlers that ran the commands - the direct SET refuses an empty key, the
+/// refused command is in the file (commands are logged before they run), the executor accepts it
 pub fn binary_witnesses() -> Vec<Case> {
-    let ld = vec![V::cmd(&[b"LRANGE", b"l", b"0", b"-1"]), V::cmd(&[b"GET", b"k"]), V::cmd(&[b"DBSIZE"])];
-    let pre = || vec![conn_op(1), conn_op(2), conn_op(DUMP_CONN), cmd_op(DUMP_CONN, &[b"VERIF", b"SWEEP", b"PAUSE"])];
-    let fin = |mut ops: Vec<Vec<Tok>>, id: &str| { ops.push(aofread_op()); ops.push(aofreplay_op(1, &ld)); Case { id: id.to_string(), ops, outs: vec![] } };
-    // a BLPOP that finds an element pops it at once: a write that is not logged
-    let mut a = pre(); a.push(cmd_op(1, &[b"RPUSH", b"l", b"a"])); a.push(cmd_op(1, &[b"BLPOP", b"l", b"1"]));
-    // a pop served to a blocked client when another client pushes
-    let mut b2 = pre(); b2.push(cmdq_op(1, &[b"BLPOP", b"l", b"0"])); b2.push(cmd_op(2, &[b"RPUSH", b"l", b"a"]));
-    // EVALSHA is logged by hash: the replaying server has no such script
-    let mut c = pre(); c.push(cmd_op(1, &[b"SCRIPT", b"LOAD", b"redis.call('SET','k','v')"]));
-    c.push(cmd_op(1, &[b"EVALSHA", b"a5df90b484682a08cdc69c29c2aaff5871448a37", b"0"]));
-    // the random classes with the random reply itself left out of the output (CMDQ), flags only (mode 0)
-    let members: Vec<Vec<u8>> = (0..40).map(|j| format!("m{}", j).into_bytes()).collect();
-    let mut sadd: Vec<&[u8]> = vec![b"SADD", b"s"]; for m in &members { sadd.push(m); }
-    let mut d = pre(); d.push(cmd_op(1, &sadd)); d.push(cmdq_op(1, &[b"SPOP", b"s", b"20"]));
-    d.push(aofread_op()); d.push(aofreplay_op(0, &[V::cmd(&[b"SMEMBERS", b"s"]), V::cmd(&[b"SCARD", b"s"])]));
-    let mut e = pre(); e.push(cmdq_op(1, &[b"XADD", b"x", b"*", b"f", b"v"]));
-    e.push(aofread_op()); e.push(aofreplay_op(0, &[V::cmd(&[b"XRANGE", b"x", b"-", b"+"]), V::cmd(&[b"XLEN", b"x"])]));
-    vec![fin(a, "w-blpop-immediate"), fin(b2, "w-blpop-served"), fin(c, "w-evalsha"),
-         Case { id: "w-random-spop-q".to_string(), ops: d, outs: vec![] }, Case { id: "w-random-xadd-q".to_string(), ops: e, outs: vec![] }]
+    let d = vec![V::cmd(&[b"TYPE", b""]), V::cmd(&[b"DBSIZE"])];
+    let mut ops = vec![conn_op(1), conn_op(DUMP_CONN), cmd_op(1, &[b"SET", b"", b"a"]), cmd_op(1, &[b"TYPE", b""]), cmd_op(1, &[b"DBSIZE"])];
+    ops.push(aofread_op()); ops.push(aofreplay_op(1, &d)); ops.push(aofrestart_op(2, &d));
+    vec![Case { id: "w-startup-executor".to_string(), ops, outs: vec![] }]
 }
 
 pub fn gen(seed: u64, n: usize, tier: &str) -> Vec<Case> {
@@ -403,6 +544,7 @@ pub fn gen(seed: u64, n: usize, tier: &str) -> Vec<Case> {
     let mut cases = vec![table_case()];
     cases.extend(witnesses());
     for id in 0..n {
+        if id % 8 == 7 { let c = blocking_case(&mut r, format!("{}", id)); cases.push(c); continue; }
         let dirty = id % 3 == 2;
         let c = random_case(&mut r, format!("{}-{}", if dirty { "dx" } else { "cl" }, id), dirty);
         cases.push(c);
@@ -440,12 +582,42 @@ fn ask(cl: &mut Client, req: &V, ms: u64) -> V {
 fn dump(cl: &mut Client, reqs: &[V]) -> Vec<V> { reqs.iter().map(|q| canon_full(q, ask(cl, q, 3000))).collect() }
 fn dec_n(op: &[Tok], pos: &mut usize, k: usize) -> Option<Vec<V>> { let mut l = vec![]; for _ in 0..k { l.push(V::dec(op, pos)?); } Some(l) }
 
+/// Model/Aof.v canon_record: a PEXPIREAT deadline is a wall-clock time (the model's clock starts at 0):
+/// compared by whether it is still ahead; the members of an SREM record sorted
+fn unix_ms() -> i128 { std::time::SystemTime::now().duration_since(std::time::UNIX_EPOCH).map(|d| d.as_millis() as i128).unwrap_or(0) }
+pub fn canon_record(f: &V, now_ms: i128) -> V {
+    let l = match f { V::Array(l) => l, _ => return f.clone() };
+    if l.len() == 3 {
+        if let (V::Bulk(n), V::Bulk(_), V::Bulk(d)) = (&l[0], &l[1], &l[2]) {
+            if n == b"PEXPIREAT" {
+                return match std::str::from_utf8(d).ok().and_then(|t| t.parse::<i64>().ok()) {
+                    Some(x) => V::Array(vec![l[0].clone(), l[1].clone(), V::Bulk(if now_ms < x as i128 { b"1".to_vec() } else { b"0".to_vec() })]),
+                    None => f.clone() };
+            }
+            return f.clone();
+        }
+    }
+    if l.len() >= 2 && matches!(&l[0], V::Bulk(n) if n == b"SREM") && l[2..].iter().all(|x| matches!(x, V::Bulk(_))) {
+        let mut ms: Vec<Vec<u8>> = l[2..].iter().map(|x| match x { V::Bulk(b2) => b2.clone(), _ => vec![] }).collect();
+        ms.sort();
+        let mut o = vec![l[0].clone(), l[1].clone()]; o.extend(ms.into_iter().map(V::Bulk));
+        return V::Array(o);
+    }
+    f.clone()
+}
+
 fn aof_read(r: &Runner, op: &[Tok]) -> (Vec<Tok>, Vec<Tok>) {
-    let bytes = read_aof(r);
-    let (frames, complete) = parse_aof(&bytes);
+    let raw = read_aof(r);
+    let (frames, complete) = parse_aof(&raw);
+    let mut newop = op.to_vec(); if newop.len() > 1 { newop[1] = Tok::I(r.logical); }
+    let now = unix_ms();
+    // (a file that is not a sequence of command arrays is shown as it is)
+    let canon_ok = complete && frames.iter().all(|f| matches!(f, V::Array(l) if !l.is_empty()));
+    let frames: Vec<V> = if canon_ok { frames.iter().map(|f| canon_record(f, now)).collect() } else { frames };
+    let bytes = if canon_ok { let mut w = vec![]; for f in &frames { f.wire(&mut w); } w } else { raw };
     let mut out = vec![bv(&bytes), i(if complete { 0 } else { 1 }), i(frames.len() as i64)];
     for f in &frames { f.enc(&mut out); }
-    (op.to_vec(), out)
+    (newop, out)
 }
 
 fn aof_replay(r: &mut Runner, op: &[Tok]) -> (Vec<Tok>, Vec<Tok>) {
@@ -483,12 +655,30 @@ fn aof_replay(r: &mut Runner, op: &[Tok]) -> (Vec<Tok>, Vec<Tok>) {
     (newop, out)
 }
 
+/// the oracles the model's redo needs (the f64 value of the arguments of the sorted-set commands, the
+/// result of ZINCRBY): from a redo of the same records on a server of its own
+fn shadow_oracles(cmds: &[V]) -> Option<Vec<V>> {
+    if !cmds.iter().any(|q| is_zcmd(&req_name(q))) { return Some(cmds.iter().map(|_| V::NullBulk).collect()); }
+    let srv2 = Srv::start(&SrvOpts { password: None, aof: false, dir: Some(scratch_dir()), keep_dir: false });
+    let mut cl2 = match Client::connect(srv2.port) { Some(x) => x, None => { srv2.stop(false); return None; } };
+    ask(&mut cl2, &V::cmd(&[b"VERIF", b"SWEEP", b"PAUSE"]), 3000);
+    let out = cmds.iter().map(|q| { let x = ask(&mut cl2, q, 3000);
+        match q { V::Array(parts) if is_zcmd(&req_name(q)) => zoracle(parts, &canon_full(q, x)), _ => V::NullBulk } }).collect();
+    drop(cl2); srv2.stop(false);
+    Some(out)
+}
+
 /// returns (op, out, the server is now expected to be dead)
 fn aof_restart(r: &mut Runner, op: &[Tok]) -> (Vec<Tok>, Vec<Tok>, bool) {
     let c = tok_int(&op[1]); let k = tok_int(&op[3]) as usize;
     let mut pos = 4;
     let reqs = match dec_n(op, &mut pos, k) { Some(l) => l, None => return (op.to_vec(), vec![b("BADFRAME")], false) };
     let mut newop = op[..pos].to_vec(); newop[2] = Tok::I(r.logical);
+    let (cmds, _) = parse_aof(&read_aof(r));
+    match shadow_oracles(&cmds) {
+        Some(os) => { newop.push(i(os.len() as i64)); for o in &os { o.enc(&mut newop); } }
+        None => return (newop, vec![b("NOCONN")], false),
+    }
     r.conns.clear();
     let _ = r.srv.child.kill(); let _ = r.srv.child.wait();
     let _ = std::fs::remove_file(r.srv.dir.join(".ready"));
@@ -657,27 +847,82 @@ fn executed(c: &Case, outs: &[Vec<Tok>], upto: usize) -> Vec<Done> {
     done
 }
 
-fn class_of_unlogged(name: &[u8]) -> Option<&'static str> {
-    match name { b"GETSET" => Some("unlogged-getset"), b"HMSET" => Some("unlogged-hmset"), b"PEXPIRE" => Some("unlogged-pexpire"),
-                 b"XREADGROUP" => Some("unlogged-xreadgroup"), b"BLPOP" | b"BRPOP" => Some("unlogged-blocking-pop"), _ => None }
+/// comparison form of a record: PEXPIREAT without its deadline, SREM members sorted
+fn cmp_form(f: &V) -> V {
+    match canon_record(f, 0) {
+        V::Array(l) if l.len() == 3 && matches!(&l[0], V::Bulk(n) if n == b"PEXPIREAT") => V::Array(l[..2].to_vec()),
+        x => x,
+    }
+}
+fn bulk(x: &[u8]) -> V { V::Bulk(x.to_vec()) }
+fn arg(req: &V, j: usize) -> Option<Vec<u8>> { match req { V::Array(l) => match l.get(j) { Some(V::Bulk(a)) => Some(a.clone()), _ => None }, _ => None } }
+fn has_opt(req: &V, names: &[&[u8]]) -> bool {
+    match req { V::Array(l) => l.iter().skip(3).any(|a| matches!(a, V::Bulk(o) if names.iter().any(|n| o.eq_ignore_ascii_case(n)))), _ => false }
+}
+
+/// what a command that ran must have left in the file, and what it may have left (after the repairs
+/// a8393c5 / f085462 / 98d0d1a / 293eff6): (records that must be there, records that may follow)
+fn expected_records(d: &Done, scripts: &std::collections::HashMap<Vec<u8>, Vec<u8>>) -> (Vec<V>, Vec<V>, bool) {
+    let parts = match &d.req { V::Array(l) => l.clone(), _ => return (vec![], vec![], false) };
+    let eff = took_effect(&d.name, &d.reply);
+    let key = parts.get(1).cloned().unwrap_or(V::NullBulk);
+    match &d.name[..] {
+        b"SPOP" => match &d.reply {
+            Some(V::Bulk(m)) => (vec![V::Array(vec![bulk(b"SREM"), key, bulk(m)])], vec![], true),
+            Some(V::Array(ms)) if !ms.is_empty() => { let mut l = vec![bulk(b"SREM"), key]; l.extend(ms.iter().cloned()); (vec![V::Array(l)], vec![], true) }
+            _ => (vec![], vec![], true) },
+        b"XADD" if parts.get(2) == Some(&bulk(b"*")) => match &d.reply {
+            Some(V::Bulk(id)) => { let mut l = parts.clone(); l[2] = bulk(id); (vec![V::Array(l)], vec![], true) }
+            _ => (vec![], vec![], true) },
+        b"EVALSHA" => {
+            let src = arg(&d.req, 1).and_then(|h| scripts.get(&h.to_ascii_lowercase()).cloned());
+            match (src, parts.len() >= 3) {
+                (Some(src), true) => { let mut l = vec![bulk(b"EVAL"), bulk(&src)]; l.extend(parts[2..].iter().cloned());
+                                       if eff { (vec![V::Array(l)], vec![], true) } else { (vec![], vec![V::Array(l)], true) } }
+                _ => (vec![], vec![], true) }
+        }
+        b"BLPOP" | b"BRPOP" => match &d.reply {
+            Some(V::Array(l)) if l.len() == 2 => (vec![V::Array(vec![bulk(if d.name == b"BLPOP" { b"LPOP" } else { b"RPOP" }), l[0].clone()])], vec![], true),
+            _ => (vec![], vec![], true) },
+        _ => {
+            let must = STATE_CHANGING.contains(&&d.name[..]) && eff;
+            let rec = V::Array(vec![bulk(b"PEXPIREAT"), key.clone()]);
+            let ok = !matches!(&d.reply, Some(V::Error(_)) | None);
+            // the deadline record: certain after a successful SET with EX / PX, SETEX, PSETEX and an
+            // EXPIRE / PEXPIRE of a positive time that answered 1; possible whenever the key keeps a deadline
+            let positive = arg(&d.req, 2).and_then(|a| String::from_utf8_lossy(&a).parse::<i64>().ok()).map_or(false, |n| n > 0);
+            let certain = ok && match &d.name[..] {
+                b"SET" => matches!(&d.reply, Some(V::Simple(_))) && has_opt(&d.req, &[b"EX", b"PX"]),
+                b"SETEX" | b"PSETEX" => matches!(&d.reply, Some(V::Simple(_))),
+                b"EXPIRE" | b"PEXPIRE" => d.reply == Some(V::Int(1)) && positive,
+                _ => false };
+            let possible = ok && matches!(&d.name[..], b"SET" | b"SETEX" | b"PSETEX" | b"EXPIRE" | b"PEXPIRE") && matches!(key, V::Bulk(_));
+            let mut m = if must { vec![d.req.clone()] } else { vec![] };
+            let mut o = if must { vec![] } else { vec![d.req.clone()] };
+            if certain { if m.is_empty() { m.push(d.req.clone()); o.clear(); } m.push(rec); } else if possible { o.push(rec); }
+            (m, o, false)
+        }
+    }
 }
 
 /// Independent of the model, on the implementation's outputs:
-///  * AOFREAD: the file ends on a frame boundary, every frame is a non-empty array, the logged
-///    commands are, in order, commands that were executed, and every executed state-changing
-///    command that took effect is among them (once, in execution order);
+///  * AOFREAD: the file ends on a frame boundary, every frame is a non-empty array, the records
+///    are, in order, those of commands that were executed - as sent for the deterministic write
+///    commands, by outcome for SPOP / XADD * / EVALSHA / blocking pops, followed by the deadline
+///    record where the command left a deadline - and every executed state-changing command that
+///    took effect is represented (once, in execution order, in the database it ran in);
 ///  * AOFREPLAY: the replayed server's dump equals the live server's dump;
 ///  * AOFRESTART: the restarted server comes up and answers the dump as before.
-/// Failures inside a known class carry class=<name>; in cl-* histories no class applies.
+/// The only known class is expiry-unlogged (a history with a short time to live and a SLEEP).
 pub fn judge(c: &Case, outs: &[Vec<Tok>]) -> Vec<String> {
     let mut fails = vec![];
-    let clean = c.id.starts_with("cl-");
+    let blocking = c.id.contains("bk-");
+    let slept = c.ops.iter().any(|o| matches!(o.first(), Some(Tok::B(n)) if n == b"SLEEP"));
     let mut last_live_dump: Option<Vec<V>> = None;
     for (k, op) in c.ops.iter().enumerate() {
         let out = match outs.get(k) { Some(o) => o, None => break };
         let name0 = match op.first() { Some(Tok::B(n)) => n.clone(), _ => continue };
         let done = || executed(c, outs, k);
-        let tag = |cl: Option<&str>| -> String { match cl { Some(x) if !clean => format!("class={} ", x), _ => String::new() } };
         match &name0[..] {
             b"AOFREAD" => {
                 if out.len() < 3 { fails.push(format!("FAIL case={} op={} AOFREAD gave no output", c.id, k)); continue; }
@@ -685,24 +930,56 @@ pub fn judge(c: &Case, outs: &[Vec<Tok>]) -> Vec<String> {
                 let n = tok_int(&out[2]) as usize; let mut pos = 3;
                 let logged = dec_n(out, &mut pos, n).unwrap_or_default();
                 for f in &logged { if !matches!(f, V::Array(l) if !l.is_empty()) { fails.push(format!("FAIL case={} op={} a logged frame is not a command array", c.id, k)); } }
+                let sel = |f: &V| -> Option<i64> { match f { V::Array(l) if l.len() == 2 && req_name(f) == b"SELECT" =>
+                    match &l[1] { V::Bulk(a) => String::from_utf8_lossy(a).parse::<i64>().ok(), _ => None }, _ => None } };
+                if blocking {
+                    // the pops served to the waiting clients, as the clients saw them (BRECV), against the pop
+                    // records of the file; the pushes and pops of the observer, as sent
+                    let mut want: Vec<(Vec<u8>, Vec<u8>)> = vec![];
+                    let mut asked: std::collections::HashMap<i128, std::collections::VecDeque<Vec<u8>>> = std::collections::HashMap::new();
+                    for (j, o) in c.ops.iter().enumerate().take(k) {
+                        match o.first() { Some(Tok::B(n)) if n == b"BSEND" => { let mut p = 4; if let Some(q) = V::dec(o, &mut p) { let nm = req_name(&q); let sent = outs.get(j).map_or(false, |r| matches!(r.first(), Some(Tok::I(0)))); if sent && (nm == b"BLPOP" || nm == b"BRPOP") { asked.entry(tok_int(&o[1])).or_default().push_back(nm); } } }
+                            Some(Tok::B(n)) if n == b"BRECV" => { if let Some(res) = outs.get(j) { let mut p = 1; while p < res.len() { match V::dec(res, &mut p) {
+                                Some(V::Array(l)) if l.len() == 2 => if let (V::Bulk(key), Some(nm)) = (&l[0], asked.get_mut(&tok_int(&o[1])).and_then(|q| q.pop_front())) { want.push((if nm == b"BLPOP" { b"LPOP".to_vec() } else { b"RPOP".to_vec() }, key.clone())); },
+                                Some(_) => {}, None => break } } } }
+                            _ => {} }
+                    }
+                    // expected: every push / pop the observer sent (write commands are logged as sent) and one
+                    // pop record per served pop; compared as multisets here (the order is compared, byte for
+                    // byte, with the model's log)
+                    let mut expect: Vec<V> = done().iter().filter(|d| matches!(&d.name[..], b"RPUSH" | b"LPUSH" | b"LPOP" | b"RPOP")).map(|d| d.req.clone()).collect();
+                    for (nm, key) in &want { expect.push(V::Array(vec![bulk(nm), bulk(key)])); }
+                    let mut got: Vec<V> = logged.iter().filter(|f| sel(f).is_none()).cloned().collect();
+                    let keyf = |f: &V| { let mut w = vec![]; f.wire(&mut w); w };
+                    expect.sort_by_key(keyf); got.sort_by_key(keyf);
+                    if expect != got { fails.push(format!("FAIL case={} op={} the file's records ({}) are not the observer's pushes and pops plus one pop per served blocking pop ({}, {} served)", c.id, k, got.len(), expect.len(), want.len())); }
+                    continue;
+                }
                 let ex = done();
+                // the scripts the cache can hold: SCRIPT LOAD and (0f156f9) EVAL sources, by digest
+                let mut scripts: std::collections::HashMap<Vec<u8>, Vec<u8>> = std::collections::HashMap::new();
                 let mut li = 0;
                 // a logged SELECT that no client command accounts for sets the database of what follows
                 let mut cur_db: i64 = 0;
-                let sel = |f: &V| -> Option<i64> { match f { V::Array(l) if l.len() == 2 && req_name(f) == b"SELECT" =>
-                    match &l[1] { V::Bulk(a) => String::from_utf8_lossy(a).parse::<i64>().ok(), _ => None }, _ => None } };
                 for d in &ex {
+                    if d.name == b"SCRIPT" && arg(&d.req, 1).map_or(false, |a| a.eq_ignore_ascii_case(b"LOAD")) { if let Some(src) = arg(&d.req, 2) { scripts.insert(crate::c12::sha1_hex(&src), src); } }
+                    if d.name == b"SCRIPT" && arg(&d.req, 1).map_or(false, |a| a.eq_ignore_ascii_case(b"FLUSH")) && !matches!(&d.reply, Some(V::Error(_))) { scripts.clear(); }
+                    if d.name == b"EVAL" { if let Some(src) = arg(&d.req, 1) { scripts.insert(crate::c12::sha1_hex(&src), src); } }
                     if d.name == b"SELECT" { continue; }     // never logged: a SELECT in the file is the engine's record
-                    while li < logged.len() && logged[li] != d.req { match sel(&logged[li]) { Some(n) => { cur_db = n; li += 1; } None => break } }
-                    if li < logged.len() && logged[li] == d.req {
-                        li += 1;
-                        if d.db != cur_db && STATE_CHANGING.contains(&&d.name[..]) {
-                            fails.push(format!("FAIL case={} op={} {}{} ran in database {} but the file places it in database {}", c.id, d.op, tag(Some("no-select-in-log")), String::from_utf8_lossy(&d.name), d.db, cur_db));
+                    let (must, may, by_outcome) = expected_records(d, &scripts);
+                    for (rec, required) in must.iter().map(|x| (x, true)).chain(may.iter().map(|x| (x, false))) {
+                        let want = cmp_form(rec);
+                        while li < logged.len() && cmp_form(&logged[li]) != want { match sel(&logged[li]) { Some(n) => { cur_db = n; li += 1; } None => break } }
+                        if li < logged.len() && cmp_form(&logged[li]) == want {
+                            li += 1;
+                            if d.db != cur_db && (STATE_CHANGING.contains(&&d.name[..]) || by_outcome) {
+                                fails.push(format!("FAIL case={} op={} {} ran in database {} but the file places it in database {}", c.id, d.op, String::from_utf8_lossy(&d.name), d.db, cur_db));
+                            }
+                            continue;
                         }
-                        continue;
-                    }
-                    if STATE_CHANGING.contains(&&d.name[..]) && took_effect(&d.name, &d.reply) {
-                        fails.push(format!("FAIL case={} op={} {}{} took effect but is not in the file", c.id, d.op, tag(class_of_unlogged(&d.name)), String::from_utf8_lossy(&d.name)));
+                        if required {
+                            fails.push(format!("FAIL case={} op={} {} took effect but its record {} is not in the file", c.id, d.op, String::from_utf8_lossy(&d.name), String::from_utf8_lossy(&req_name(rec))));
+                        }
                     }
                 }
                 while li < logged.len() && sel(&logged[li]).is_some() { li += 1; }
@@ -719,35 +996,23 @@ pub fn judge(c: &Case, outs: &[Vec<Tok>]) -> Vec<String> {
                     }
                 }
                 if tok_int(&out[0]) == 1 { continue; }
-                let ex = done();
-                // which known class can explain a disagreement
-                let mut class: Option<&str> = None;
-                for d in &ex {
-                    let eff = took_effect(&d.name, &d.reply);
-                    // (missing names and missing SELECT records are found exactly by the AOFREAD check)
-                    if eff && matches!(&d.name[..], b"BLPOP" | b"BRPOP") { class = Some("unlogged-blocking-pop"); break; }
-                    if d.name == b"SPOP" && eff { class = Some("random-verbatim"); break; }
-                    if d.name == b"EVALSHA" && eff { class = Some("evalsha-by-hash"); break; }
-                    if d.name == b"XADD" { if let V::Array(l) = &d.req { if l.get(2) == Some(&V::Bulk(b"*".to_vec())) { class = Some("random-verbatim"); break; } } }
-                    if let V::Array(l) = &d.req {
-                        let zero = |j: usize| l.get(j) == Some(&V::Bulk(b"0".to_vec()));
-                        let opt0 = l.windows(2).any(|w| matches!(&w[0], V::Bulk(o) if o.eq_ignore_ascii_case(b"PX") || o.eq_ignore_ascii_case(b"EX")) && w[1] == V::Bulk(b"0".to_vec()));
-                        let slept = c.ops.iter().any(|o| matches!(o.first(), Some(Tok::B(n)) if n == b"SLEEP"));
-                        let ttl = l.iter().any(|a| matches!(a, V::Bulk(o) if o.eq_ignore_ascii_case(b"PX") || o.eq_ignore_ascii_case(b"EX")));
-                        if (d.name == b"SET" && opt0) || (d.name == b"PEXPIRE" && zero(2)) || (slept && ttl) { class = Some("expired-unlogged"); break; }
-                    }
-                }
-                fails.push(format!("FAIL case={} op={} {}the replayed dataset differs from the live one", c.id, k, tag(class)));
+                // the one known class: a key passed its deadline between the live run and the redo, and a later
+                // command of the history had built on it
+                let class = if slept && c.id.starts_with("w-expiry") { "class=expiry-unlogged " } else { "" };
+                fails.push(format!("FAIL case={} op={} {}the replayed dataset differs from the live one", c.id, k, class));
             }
             b"AOFRESTART" => {
                 if out.is_empty() || !matches!(out[0], Tok::I(_)) { fails.push(format!("FAIL case={} op={} AOFRESTART did not run", c.id, k)); continue; }
-                if tok_int(&out[0]) == 0 { fails.push(format!("FAIL case={} op={} class=startup-nonutf8-abort the server does not start on its own append-only file", c.id, k)); continue; }
+                if tok_int(&out[0]) == 0 { fails.push(format!("FAIL case={} op={} the server does not start on its own append-only file", c.id, k)); continue; }
                 let kk = tok_int(&op[3]) as usize; let mut pos = 1;
                 let after = dec_n(out, &mut pos, kk).unwrap_or_default();
-                let lost = match &last_live_dump { Some(before) => *before != after,
+                let lost = match &last_live_dump { Some(before) => before.len() == after.len() && *before != after,
                     // without a previous dump: any executed effective write means the dataset was not empty
-                    None => done().iter().any(|d| STATE_CHANGING.contains(&&d.name[..]) && took_effect(&d.name, &d.reply)) && after.iter().any(|x| matches!(x, V::Int(0))) };
-                if lost { fails.push(format!("FAIL case={} op={} class=startup-replay-noop the dataset is not recovered from the file at start-up", c.id, k)); }
+                    None => done().iter().any(|d| STATE_CHANGING.contains(&&d.name[..]) && took_effect(&d.name, &d.reply)) && after.iter().all(|x| matches!(x, V::Int(0) | V::Int(-2) | V::NullBulk | V::Error(_)) || matches!(x, V::Array(l) if l.is_empty()) || matches!(x, V::Simple(t) | V::Bulk(t) if t == b"none")) };
+                // known class: a SET of the empty key, refused when it was sent, is accepted by the start-up replay
+                let class = if done().iter().any(|d| (matches!(&d.name[..], b"SET" | b"INCR" | b"INCRBY") && arg(&d.req, 1).map_or(false, |a| a.is_empty()))
+                                                        || matches!(&d.req, V::Array(l) if l.iter().any(|a| !matches!(a, V::Bulk(_))))) { "class=startup-executor-differs " } else { "" };
+                if lost { fails.push(format!("FAIL case={} op={} {}the dataset after the restart is not the dataset before it", c.id, k, class)); }
             }
             _ => {}
         }
